@@ -40,16 +40,17 @@ type xsched struct {
 	gates  map[string]chan struct{}
 	at     map[string]string
 	enters map[string]int // per process: how many times it has entered setLocalHead
+	holds  map[string]bool // per process: it is inside incomingNetworkHead's critical section (told by the code itself)
 	pass   bool
 }
 
-// parkedOutsideMutex: proc is parked at a gate of Head()'s first setLocalHead (or of its head request), which runs
-// before Head() takes the incoming-head mutex.
+// parkedOutsideMutex: proc is parked at a gate and does not hold the incoming-head mutex (Head() applies the head it
+// learned before it takes the mutex; the code reports entering and leaving the critical section through two points).
 func (s *xsched) parkedOutsideMutex(proc string) bool {
 	s.mu.Lock()
 	defer s.mu.Unlock()
 	_, ok := s.gates[proc]
-	return ok && s.enters[proc] <= 1
+	return ok && !s.holds[proc]
 }
 
 func (s *xsched) hook(ctx context.Context, point string, _ ...uint64) {
@@ -61,6 +62,15 @@ func (s *xsched) hook(ctx context.Context, point string, _ ...uint64) {
 		if v, ok := ctx.Value(procKey{}).(string); ok {
 			proc = v
 		}
+	}
+	if point == "incomingNetworkHead.locked" || point == "incomingNetworkHead.released" {
+		s.mu.Lock()
+		if s.holds == nil {
+			s.holds = map[string]bool{}
+		}
+		s.holds[proc] = point == "incomingNetworkHead.locked"
+		s.mu.Unlock()
+		return // bookkeeping only, never a gate
 	}
 	s.mu.Lock()
 	if point == "setLocalHead.enter" {
@@ -191,7 +201,7 @@ func syncExploreOnce(t *testing.T, id int, rnd *rand.Rand) (evs []SyncEv, cfg st
 		}
 		n := newNode(t, chain, 1, 1+id%3, hsync.WithBlockTime(time.Hour))
 		storeWrap = nil
-		sc := &xsched{gates: map[string]chan struct{}{}, at: map[string]string{}, enters: map[string]int{}}
+		sc := &xsched{gates: map[string]chan struct{}{}, at: map[string]string{}, enters: map[string]int{}, holds: map[string]bool{}}
 		var learnedMu sync.Mutex
 		learned := 1 // highest valid head offered so far (by gossip or as a Head() answer)
 		n.get.headFn = func(_ gcall, trusted *vh.Header) (*vh.Header, error) {
